@@ -2,14 +2,22 @@
 //! Every op of the protocol is executable here, so any replay file can be re-run.
 use crate::proto::*;
 
+use casbin::{DefaultRoleManager, RoleManager};
+
 pub struct World {
     pub rt: tokio::runtime::Runtime,
+    pub rm: Option<DefaultRoleManager>,
+}
+
+pub fn dom_opt(s: &str) -> Option<String> {
+    if s == "-" { None } else { Some(unesc(s)) }
 }
 
 impl World {
     pub fn new() -> Self {
         World {
             rt: tokio::runtime::Builder::new_current_thread().enable_all().build().unwrap(),
+            rm: None,
         }
     }
 
@@ -27,7 +35,84 @@ impl World {
                 let cap: usize = f[2].parse().unwrap();
                 crate::c02::run_impl(&unesc(f[1]), cap, &crate::c02::seq_of(f[3]))
             }
+            "rm.new" => {
+                self.rm = Some(DefaultRoleManager::new(f[1].parse().unwrap()));
+                "ok".into()
+            }
+            "rm.add" | "rm.del" | "rm.clear" | "rm.has" | "rm.roles" | "rm.users" | "rm.snap" | "rm.snapf" => {
+                let rm = match self.rm.as_mut() { Some(r) => r, None => return "no-rm".into() };
+                let r = catch(|| match f[0] {
+                    "rm.add" => {
+                        let d = dom_opt(f[3]);
+                        rm.add_link(&unesc(f[1]), &unesc(f[2]), d.as_deref());
+                        "ok".to_string()
+                    }
+                    "rm.del" => {
+                        let d = dom_opt(f[3]);
+                        match rm.delete_link(&unesc(f[1]), &unesc(f[2]), d.as_deref()) {
+                            Ok(()) => "ok".to_string(),
+                            Err(e) => format!("err:{}", err_kind(&e)),
+                        }
+                    }
+                    "rm.clear" => { rm.clear(); "ok".to_string() }
+                    "rm.has" => {
+                        let d = dom_opt(f[3]);
+                        bool_s(rm.has_link(&unesc(f[1]), &unesc(f[2]), d.as_deref())).to_string()
+                    }
+                    "rm.roles" => {
+                        let d = dom_opt(f[2]);
+                        enc_list(&sorted(rm.get_roles(&unesc(f[1]), d.as_deref())))
+                    }
+                    "rm.users" => {
+                        let d = dom_opt(f[2]);
+                        enc_list(&sorted(rm.get_users(&unesc(f[1]), d.as_deref())))
+                    }
+                    _ => {
+                        // rm.snap names doms mask | rm.snapf names doms
+                        let names = dec_list(f[1]);
+                        let doms: Vec<Option<String>> = f[2].split(',').map(dom_opt).collect();
+                        let mask: Vec<u8> = if f[0] == "rm.snap" { f[3].bytes().collect() } else { vec![] };
+                        let mut bits = String::new();
+                        let mut k = 0;
+                        for d in &doms {
+                            for a in &names {
+                                for b in &names {
+                                    if !mask.is_empty() && mask[k] == b'?' {
+                                        bits.push('?');
+                                    } else {
+                                        bits.push(if rm.has_link(a, b, d.as_deref()) { '1' } else { '0' });
+                                    }
+                                    k += 1;
+                                }
+                            }
+                        }
+                        if f[0] == "rm.snapf" { return bits; }
+                        let mut out = format!("H:{}", bits);
+                        for d in &doms {
+                            for a in &names {
+                                out.push_str(&format!(" R:{} U:{}", enc_list(&sorted(rm.get_roles(a, d.as_deref()))), enc_list(&sorted(rm.get_users(a, d.as_deref())))));
+                            }
+                        }
+                        out
+                    }
+                });
+                r.unwrap_or_else(|| "panic".to_string())
+            }
             _ => "bad-op".to_string(),
         }
+    }
+}
+
+pub fn err_kind(e: &casbin::Error) -> &'static str {
+    use casbin::Error::*;
+    match e {
+        IoError(_) => "io",
+        ModelError(_) => "model",
+        PolicyError(_) => "policy",
+        RbacError(_) => "rbac",
+        RhaiError(_) => "eval",
+        RhaiParseError(_) => "eval",
+        RequestError(_) => "request",
+        AdapterError(_) => "adapter",
     }
 }
